@@ -137,7 +137,8 @@ def verify_unit(modname, tier="quick", seed=None, rlimit=None, canaries=True, ta
     res.cmd = r["cmd"]
     b2c = _byte_to_char_fn(text)
     _digest(res, r, text, genmap, b2c)
-    if res.status != "undecided" and canaries:
+    # the vacuity pass guards a *pass*; a unit that already reports failed obligations does not need it
+    if res.status == "ok" and canaries:
         ctext, cgenmap = unit.build(canaries=True)
         cpath = os.path.join(BUILD, base + "_canary.rs")
         with open(cpath, "w", encoding="utf-8") as fh:
